@@ -144,6 +144,13 @@ def run(prop, tier):
     transitions += lsp_stats.pop("transitions")
     replayed += lsp_stats["notifications"]
     per["lsp"] = lsp_stats
+    # (2c) inputs first created INSIDE a snapshot (the language server's pattern): the owner's later edit must reach new snapshots
+    p = lib.zyconf(["snapshot-first-lookup"])
+    lines = [l for l in p.stdout.splitlines() if l.startswith(("first", "disk"))]
+    want = ["first (valid text) true; after the owner's edit: new snapshot false, owner false",
+            "disk: first (syntax error) ok=false; after write+refresh_disk (ok=true) of valid text: new snapshot ok=true"]
+    if lines != want:
+        out.add_findings([{"property": "C17", "kind": "edit-does-not-reach-a-file-first-looked-up-in-a-snapshot", "detail": " | ".join(lines)}])
     # (3) pending slot of check_resolved
     psum = os.path.join(W, "pending.summary.json")
     lib.zyconf(["pending-slot", psum])
